@@ -868,6 +868,14 @@ Proof.
   rewrite P in *. symmetry. now apply C05_noninterference.
 Qed.
 
+(* the two ways a context comes into being: an asyncio task inherits the current action of the
+   context that creates it; a context nobody has written to (a new thread) has none *)
+Lemma spawn_inherits c c' s : cur (api cfg c s (OSpawn c')) c' = cur s c.
+Proof. cbn [api]. apply cur_set_ctx_same. Qed.
+
+Lemma new_context_none (s : state) c : alookup c (ctx s) = None -> cur s c = None.
+Proof. unfold cur. now intros ->. Qed.
+
 End Cfg.
 
 (* ====================================================================================== *)
@@ -916,6 +924,11 @@ Proof. repeat split; try discriminate; vm_compute; reflexivity. Qed.
 Example api_frame_spawn_refuted :
   exists cfg c c' s o, c' <> c /\ cur (api cfg c s o) c' <> cur s c'.
 Proof. exists ex_cfg, 1, 2, ex_s, (OSpawn 2). split; [discriminate | vm_compute; discriminate]. Qed.
+
+Example spawn_inherits_example :
+  cur ex_s 0 = Some 1 /\ cur (api ex_cfg 0 ex_s (OSpawn 7)) 7 = Some 1 /\
+  alookup 7 (ctx ex_s) = None /\ cur ex_s 7 = None.
+Proof. vm_compute. auto. Qed.
 
 (* an interleaving of the three contexts *)
 Definition ex_sched : list (nat * op) :=
